@@ -339,9 +339,9 @@ def _single_return(fn):
     return rets
 
 
-def rule_r3(chk, p, t):
+def rule_r3(chk, p, t, rid="C14.R3"):
     r = chk.rule(
-        "C14.R3",
+        rid,
         "helper polarity and operands",
         6,
         "final comparators of lineOfSight (outside [0,1] -> True; closest approach >= R^2, symmetric expression), Earth "
@@ -604,7 +604,7 @@ def run(chk, p, t):
         "exactness as values, symmetry of lineOfSight as numbers, the Sun-fraction range."
     )
     chk.assumptions += ["getAzimuth returns an angle in [0, 2pi) (wrapAngle2Pi), getElevation in [-pi/2, pi/2]", "mask limits lie in [0, 2pi] (enforced by the az_mask setter)"]
-    for fn in (rule_r1, rule_r2, rule_r3, rule_r4, rule_r5, rule_r6, rule_r7, rule_r8, rule_r11):
+    for fn in (rule_r1, rule_r2, rule_r3, rule_r4, rule_r5, rule_r6, rule_r7, rule_r8, rule_r11, rule_r12):
         rid = "C14.R" + fn.__name__.split("_r")[-1]
         if not chk.wants(rid):
             continue
@@ -792,6 +792,15 @@ def rule_r11(chk, p, t, rid="C14.R11"):
             )
 
     r.guard(fn.qualname, one)
+
+
+def rule_r12(chk, p, t):
+    # azimuth masks and the rectangular field of view are functions of getAzimuth / getElevation of the slant-range vector:
+    # the angle recoveries must be the exact inverses of the spherical model, quadrant by quadrant (an azimuth taken from the
+    # velocity inside a finite cap around the zenith makes membership depend on the rates) - shared instance of C04.R10
+    from rules import C04
+
+    C04.rule_r10(chk, p, t, rid="C14.R12", parts=("measurement",))
 
 
 def rule_r6(chk, p, t, rid="C14.R6"):
